@@ -10,7 +10,7 @@ RULE = ("Hypothesis-generated histories (<=12 ops) over two sources and one targ
         "nested_refs), d (Dict, nested_refs): references of every kind (Parameter, bind of one or two parameters, depends "
         "function, dependent method depending on another dependent method, rx expression, nested list/dict, a bound function that skips - raises Skip - for some source values) given in the constructor or assigned later; source updates (valid and "
         "occasionally invalid for the target), source batches, relinks, overrides with plain values, `with target.param.update()` "
-        "contexts over one or two names given as keywords, a mapping or both, with source updates inside; oracle = closure model of each live link evaluated on model source values, compared "
+        "contexts over one or two names given as keywords, a mapping or both, with source updates inside, param.trigger on linked and unlinked names; oracle = closure model of each live link evaluated on model source values, compared "
         "after every op, overridden names keep their plain value for good, and a census of the internal watchers the target "
         "keeps on each source (none when no live link depends on that source). Non-trivial = >=2 linked parameters and a "
         "relink/override of one of them followed by updates of the old and new sources; or a link made after construction; or a "
@@ -36,8 +36,10 @@ def _link(draw):
 
 @st.composite
 def _op(draw, depth=0):
-    kind = draw(st.sampled_from(["src", "src", "src", "src", "batch", "relink", "relink", "override", "updctx"] if depth == 0
-                                else ["src", "src", "batch"]))
+    kind = draw(st.sampled_from(["src", "src", "src", "src", "batch", "relink", "relink", "override", "updctx", "trigger"] if depth == 0
+                                else ["src", "src", "batch", "trigger"]))
+    if kind == "trigger":
+        return ["trigger", draw(st.lists(_tn, min_size=1, max_size=2, unique=True)), draw(st.booleans())]
     if kind == "src":
         pn = draw(st.sampled_from(["v", "w", "s"]))
         val = draw(st.integers(-20, 60)) if pn != "s" else draw(st.sampled_from(["a", "b", "cc"]))
@@ -193,6 +195,18 @@ def execute(case):
             marks.add("link_made_later")
             if spec[0] in ("nlist", "ndict"):
                 marks.add("nested_reference")
+        elif k == "trigger":
+            # param.trigger announces the current values again: it overrides nothing, links stay as they are
+            if any(n in stale for n in op[1]):
+                return None          # the held value may be invalid-for-target history: keep to judged names
+            if op[2]:
+                from param.parameterized import batch_call_watchers
+                with batch_call_watchers(tgt):
+                    tgt.param.trigger(*op[1])
+            else:
+                tgt.param.trigger(*op[1])
+            if any(n in links for n in op[1]):
+                marks.add("trigger_on_linked_parameter")
         elif k == "override":
             n = op[1]
             v = _plain(n, op[2])
